@@ -215,6 +215,117 @@ theorem stack_constants :
     Generated.GerrorBase.defaultSkip = 4 := by
   decide
 
+/-- the sections of `(*GError).Error()` appear in the order the model renders them (`errorFull`) -/
+theorem error_parts :
+    Generated.GerrorBase.errorParts.map String.toList =
+      ["name".toList, "dtag".toList, "source".toList, "message".toList, "stack".toList] := by
+  decide
+
+/-- `ExtMsgf` asserts its first parameter to `Factory`, calls `Msg(format, args...)` on it when that
+succeeds and `ErrUnknown.Convert(err)` otherwise; `ErrUnknown` has the fields of `errUnknown`. -/
+theorem extMsgf_wiring :
+    Generated.GerrorBase.extMsgfAsserts = 0 ∧
+    (Generated.GerrorBase.extMsgfFactoryBranch.1.toList, Generated.GerrorBase.extMsgfFactoryBranch.2) =
+      (Method.msg.goName.toList, ([1, 2], true)) ∧
+    (Generated.GerrorBase.extMsgfElseBranch.1.toList, Generated.GerrorBase.extMsgfElseBranch.2.1.toList,
+      Generated.GerrorBase.extMsgfElseBranch.2.2) = ("ErrUnknown".toList, Method.convert.goName.toList, [0]) ∧
+    Generated.GerrorBase.errUnknownFields.map (fun p => (p.1.toList, p.2.toList)) =
+      [("Name".toList, errUnknown.name), ("Message".toList, errUnknown.msg)] ∧
+    errUnknown.src = [] ∧ errUnknown.dtag = [] ∧ errUnknown.stack = [] := by
+  decide
+
+/-! ## `ExtMsgf` -/
+
+/-- **On a gerror value `ExtMsgf` is `Msg`**, called from `ExtMsgf`'s own frame. -/
+theorem extMsgf_gerror_is_msg (e : E) (format formatted errText : Str) (fr : Frames) :
+    extMsgf (.gerr e) format formatted errText fr =
+      step e { m := .msg, params := [format], formatted := formatted, frames := extMsgfFrames fr } := rfl
+
+/-- **On anything else it is `ErrUnknown.Convert(err)`** — format and arguments are dropped. -/
+theorem extMsgf_foreign_is_convert (format formatted errText : Str) (fr : Frames) :
+    extMsgf .foreign format formatted errText fr =
+      step errUnknown { m := .convert, params := [], formatted := errText, frames := extMsgfFrames fr } := rfl
+
+theorem extMsgf_foreign_drops_format (f1 s1 f2 s2 errText : Str) (fr : Frames) :
+    extMsgf .foreign f1 s1 errText fr = extMsgf .foreign f2 s2 errText fr := rfl
+
+/-- `ExtMsgf` after a chain is the chain with one more `Msg` call: every chain law above applies. -/
+theorem extMsgf_extends_chain (f : E) (cs : List Call) (format formatted errText : Str) (fr : Frames) :
+    extMsgf (.gerr (run f cs)) format formatted errText fr =
+      run f (cs ++ [{ m := .msg, params := [format], formatted := formatted, frames := extMsgfFrames fr }]) := by
+  rw [run_append]; rfl
+
+/-- the frame of `ExtMsgf` counts as "outside" for `NearestExternal`, and renders as `gerror:ExtMsgf` -/
+theorem extMsgf_frame_outside (c : Call) (fr : Frames) (h : c.frames = extMsgfFrames fr) : CallerOutside c := by
+  unfold CallerOutside; rw [h]
+  show currentPackage.isPrefixOf extMsgfFrame = false
+  decide
+
+theorem extMsgf_metric : metric extMsgfFrame = "gerror:ExtMsgf".toList := by decide
+
+/-- message: the formatted text is appended like any `Msg` extension (trimmed, dropped when blank) -/
+theorem extMsgf_message (e : E) (format formatted errText : Str) (fr : Frames) :
+    (extMsgf (.gerr e) format formatted errText fr).msg = combine [' '] e.msg (trimSpace formatted) := by
+  rw [extMsgf_gerror_is_msg, step_msg]; rfl
+
+/-- name, detail tag and stack are untouched -/
+theorem extMsgf_keeps (e : E) (format formatted errText : Str) (fr : Frames) :
+    (extMsgf (.gerr e) format formatted errText fr).name = e.name ∧
+    (extMsgf (.gerr e) format formatted errText fr).dtag = e.dtag ∧
+    (extMsgf (.gerr e) format formatted errText fr).stack = e.stack := by
+  rw [extMsgf_gerror_is_msg]
+  refine ⟨step_name _ _, ?_, ?_⟩
+  · rw [step_dtag]; rfl
+  · rw [step_stack]
+    by_cases h : e.stack = [] <;> simp [h, Method.takesStack]
+
+/-- **Source.** A source that is there stays; otherwise the derived source names `ExtMsgf` itself
+(`gerror:ExtMsgf`), not the function that called `ExtMsgf` — the frame `CloneBase` looks at is the
+caller of `Msg`. -/
+theorem extMsgf_source (e : E) (hi : Inv e) (format formatted errText : Str) (fr : Frames) :
+    (extMsgf (.gerr e) format formatted errText fr).src =
+      if e.src ≠ [] then e.src else "gerror:ExtMsgf".toList := by
+  rw [extMsgf_gerror_is_msg, step_src e _ hi (extMsgf_frame_outside _ fr rfl)]
+  by_cases h : e.src = []
+  · simp only [h, ne_eq, not_true_eq_false, if_false]
+    rw [← extMsgf_metric]; rfl
+  · simp [h]
+
+/-- the result for a foreign error (or `nil`), in full -/
+theorem extMsgf_foreign_result (format formatted errText : Str) (fr : Frames) :
+    extMsgf .foreign format formatted errText fr =
+      { name := errUnknown.name,
+        msg := errUnknown.msg ++ [' '] ++ trimSpace (originalErrorPrefix ++ errText),
+        src := "gerror:ExtMsgf".toList, dtag := [], stack := [] } := by
+  have hne : trimSpace (originalErrorPrefix ++ errText) ≠ [] := by
+    rw [Ne, trimSpace_eq_nil_iff]
+    have : originalErrorPrefix = 'o' :: "riginalError: ".toList := by decide
+    rw [this]
+    simp only [List.cons_append, List.all_cons]
+    have : isSpace 'o' = false := by decide
+    simp [this]
+  have hsrc : (extMsgf .foreign format formatted errText fr).src = "gerror:ExtMsgf".toList := by
+    rw [extMsgf_foreign_is_convert,
+      step_src errUnknown _ (inv_of_factory _ rfl) (extMsgf_frame_outside _ fr rfl), ← extMsgf_metric]
+    rfl
+  have hmsg : (extMsgf .foreign format formatted errText fr).msg =
+      errUnknown.msg ++ [' '] ++ trimSpace (originalErrorPrefix ++ errText) := by
+    rw [extMsgf_foreign_is_convert, step_msg]
+    show combine [' '] errUnknown.msg (trimSpace (originalErrorPrefix ++ errText)) = _
+    unfold combine
+    rw [if_neg hne, if_neg (by decide)]
+  have hname : (extMsgf .foreign format formatted errText fr).name = errUnknown.name := step_name _ _
+  have hdtag : (extMsgf .foreign format formatted errText fr).dtag = [] := by
+    rw [extMsgf_foreign_is_convert, step_dtag]; rfl
+  have hstack : (extMsgf .foreign format formatted errText fr).stack = [] := by
+    rw [extMsgf_foreign_is_convert, step_stack]; rfl
+  cases hr : extMsgf .foreign format formatted errText fr with
+  | mk n m s d k =>
+    rw [hr] at hsrc hmsg hname hdtag hstack
+    simp only at hsrc hmsg hname hdtag hstack
+    subst hsrc hmsg hname hdtag hstack
+    rfl
+
 /-! ## Immutability: derivations only allocate -/
 
 theorem derive_prefix (h : Heap) (d : Deriv) : ∃ l, derive h d = h ++ l := by
